@@ -1,8 +1,51 @@
 (* Decoding of C01 cases and verdicts. *)
 From Coq Require Import List NArith Bool.
-From FS Require Import Sx Model.Path Model.Stat Model.Tree Model.Converge.
+From FS Require Import Sx Model.Path Model.Stat Model.Tree Model.Diff Model.AbsDest Model.Converge Model.ConvergeA.
 Import ListNotations.
 Open Scope N_scope.
+
+(* ---- comparison of the real snapshot with the view predicted by the level-A model
+        (receive_t of Model/ConvergeA.v = receive_abs of AbsDest + directory mtimes) ---- *)
+(* "some time during the transfer": the model's clock; never a real int64 *)
+Definition c01_sentinel : N := 18446744073709551616.
+
+Definition c01_xsub (a b : list (bytes * bytes)) : bool :=
+  forallb (fun kv => match xget (fst kv) b with Some kv' => bytes_eqb (snd kv) (snd kv') | None => false end) a.
+Definition c01_xsame (a b : list (bytes * bytes)) : bool := c01_xsub a b && c01_xsub b a.
+
+(* first field in which the real entry r differs from the predicted entry m (0 = none) *)
+Definition c01_obs_diff (unpriv : bool) (m r : obs) : N :=
+  let ty := o_type m in
+  if negb (N.eqb ty (o_type r)) then 1
+  else if negb (N.eqb ty S_IFLNK || N.eqb (o_perm m) (o_perm r)) then 2
+  else if negb (N.eqb (o_uid m) (o_uid r) && N.eqb (o_gid m) (o_gid r)) then 3
+  else if negb (N.eqb (o_mtime m) c01_sentinel || N.eqb (o_mtime m) (o_mtime r)) then 4
+  else if negb (if N.eqb ty S_IFREG then bytes_eqb (o_content m) (o_content r) else true) then 5
+  else if negb (if N.eqb ty S_IFLNK then bytes_eqb (o_target m) (o_target r) else true) then 6
+  else if negb (if N.eqb ty S_IFCHR || N.eqb ty S_IFBLK
+                then N.eqb (o_major m) (o_major r) && N.eqb (o_minor m) (o_minor r) else true) then 7
+  else if negb (if N.eqb ty S_IFDIR then c01_xsame (o_xattrs m) (o_xattrs r)
+                else if N.eqb ty S_IFREG then
+                  (* known finding unpriv-readonly-xattrs: not judged here *)
+                  (unpriv && N.eqb (N.land (o_perm m) 128) 0) || c01_xsame (o_xattrs m) (o_xattrs r)
+                else true) then 8
+  else 0.
+
+Definition c01_model_diff (unpriv : bool) (pred real : list obs) : list sx :=
+  flat_map (fun m => match find_obs (o_path m) real with
+                     | Some r => let c := c01_obs_diff unpriv m r in
+                                 if N.eqb c 0 then [] else [SL [SB (o_path m); SN c]]
+                     | None => [SL [SB (o_path m); SN 100]] end) pred
+  ++ flat_map (fun r => match find_obs (o_path r) pred with
+                        | Some _ => [] | None => [SL [SB (o_path r); SN 101]] end) real
+  (* inode partition over all non-directories *)
+  ++ flat_map (fun m1 => flat_map (fun m2 =>
+       if N.eqb (o_type m1) S_IFDIR || N.eqb (o_type m2) S_IFDIR then [] else
+       match find_obs (o_path m1) real, find_obs (o_path m2) real with
+       | Some r1, Some r2 =>
+         if Bool.eqb (N.eqb (o_ino m1) (o_ino m2)) (N.eqb (o_ino r1) (o_ino r2)) then []
+         else [SL [SB (o_path m1); SB (o_path m2); SN 102]]
+       | _, _ => [] end) pred) pred.
 
 (* kind 0101: input = (srcView priorView merge srckind cap differ notify ...);
    impl = (send_err recv_err hung dest_raw reqs notifs).
@@ -13,7 +56,7 @@ Definition run_0101 (input impl : sx) : sx :=
   | SL (sv :: pv :: mg :: _), SL [SN se; SN re; SN hung; dr; _; _] =>
     match dec_view sv, dec_view pv, sx_bool mg, sx_list dec_raw dr with
     | Some src, Some prior, Some merge, Some dest =>
-      let unpriv := match input with SL [_; _; _; _; _; _; _; SN u] => negb (N.eqb u 0) | _ => false end in
+      let unpriv := match input with SL (_ :: _ :: _ :: _ :: _ :: _ :: _ :: SN u :: _) => negb (N.eqb u 0) | _ => false end in
       (* the unprivileged receiver rewrites owners to its own id (1000) through the Filter option *)
       let own (e : entry) : entry :=
         if unpriv then
@@ -25,10 +68,33 @@ Definition run_0101 (input impl : sx) : sx :=
       let s := map own (walk_root src) in
       let p := map own (walk_root prior) in
       let success := N.eqb se 0 && N.eqb re 0 && N.eqb hung 0 in
+      let differ := match input with SL (_ :: _ :: _ :: _ :: _ :: SN df :: _) => if N.eqb df 0 then DMetadata else DNone
+                    | _ => DMetadata end in
+      let faithful := identity_faithful_b differ p s in
       let holds :=
-        if success then (if identity_faithful p s || merge then converged merge p s dest else true)
+        if success then (if Converge.identity_faithful p s || merge then converged merge p s dest else true)
         else false in   (* a fault-free transfer of a valid view must succeed *)
       let diag := if success then converged_diag merge p s dest else [] in
+      (* the level-A model's prediction is judged on EVERY successful transfer — also on the identity
+         collisions that the specification excludes by hypothesis: there the model predicts that the
+         old bytes stay (unrestricted_convergence_refuted), and so does the code *)
+      let judged := success in
+      (* every case lies in the domain of the theorems: both listings are wf_entries, and wherever the
+         oracle is judged (Converge.identity_faithful) the hypothesis of diff_apply_converges holds *)
+      let in_domain := match input with
+                       | SL [_; _; _; _; _; _; _; _; _] =>      (* generated case (hand-written corpus cases may lie outside) *)
+                         wf_entries_b p && wf_entries_b s
+                         && (merge || negb (Converge.identity_faithful p s) || faithful)
+                       | _ => true end in
+      let pred := view_x p (receive_t (fun _ => c01_sentinel) (if merge then Merge else Fresh) differ p s) in
+      let mdiff := if judged then c01_model_diff unpriv pred (map obs_of_raw dest) else [] in
+      (* the generator's count of identity collisions (cases excluded by hypothesis) is the glue's decision *)
+      let flag_ok := match input with
+                     | SL [_; _; _; _; _; _; _; _; SN f] => Bool.eqb (negb (N.eqb f 0)) (negb (Converge.identity_faithful p s))
+                     | _ => true end in
+      let model := if negb flag_ok then SL [SB [99;111;108;108;105;115;105;111;110;45;102;108;97;103]]   (* "collision-flag" *)
+                   else if negb in_domain then SL [SB [110;111;116;45;119;102]]                           (* "not-wf" *)
+                   else match mdiff with [] => impl | _ => SL (SB [109;111;100;101;108] :: mdiff) end in   (* "model" *)
       (* known finding: an unprivileged receiver cannot set user.* xattrs on a file it created
          without owner write permission (LSetxattr fails with EACCES, the error is ignored) *)
       let ro_xattr_item (it : sx) : bool :=
@@ -41,7 +107,7 @@ Definition run_0101 (input impl : sx) : sx :=
       let sig := if unpriv && negb (Nat.eqb (length diag) 0) && forallb ro_xattr_item diag
                  then [SL [SB [115;105;103]; SB [117;110;112;114;105;118;45;114;101;97;100;111;110;108;121;45;120;97;116;116;114;115]]]
                  else [] in   (* (sig "unpriv-readonly-xattrs") *)
-      verdict impl impl holds (SL (SN (if success then 1 else 2) :: diag ++ sig))
+      verdict model impl holds (SL (SN (if success then 1 else 2) :: diag ++ sig))
     | _, _, _, _ => v_malformed
     end
   | _, _ => v_malformed
